@@ -5,7 +5,8 @@
      Beam::theta_external, CrystalSetup::optimal_waist_position           closed forms over the index function
    Parameters that remain: the index function of a crystal setup (any function; Compose_index.crystal_index for built-in
    crystals), the Snell inverse Beam::calc_internal_theta_from_external (property C13), the termination tests of the two
-   simplex searches (the theorems hold for any).  Definitions only. *)
+   simplex searches (the theorems hold for any).  Every partial floating-point operation carries its definedness guard:
+   the oracle answers None (the implementation: NaN, and a panic where a search meets it) outside the guard.  Definitions only. *)
 From Coq Require Import Reals List Bool.
 From SpdVerif Require Import Base.Rx Base.Vec3 Base.CfgNumOps Model.NumInst Spec.ConfigSpec Gen.ConfigTables Model.ConfigTypes Model.Config.
 From SpdVerif Require Gen.Idler Model.Idler Gen.AutoCalc Model.AutoCalc Model.NM1d.
@@ -41,6 +42,24 @@ Section Composed.
   (* termination tests of the angle / period searches *)
   Variable sd_theta sd_period : @NM.ecost R -> @NM.ecost R -> bool.
 
+  (* ---- definedness of the partial floating-point operations (each None below is a NaN / +-inf in the implementation) *)
+  Definition Rleb (a b : R) : bool := if Rle_dec a b then true else false.
+  Definition Rltb (a b : R) : bool := if Rlt_dec a b then true else false.
+  Definition in_unit (x : R) : bool := Rleb (-1) x && Rleb x 1.
+
+  (* Beam::calc_external_theta_from_internal: asin (n sin theta) needs |n sin theta| <= 1 -- no total internal reflection *)
+  Definition snell_arg (b : beam R) (cs : crystal_setup R) : R :=
+    index_of cs (b_wavelength b) (GI.direction_from_polar (b_phi b) (b_theta b)) (ipol (b_pol b)) * sin (b_theta b).
+  Definition snell_ext_defined (b : beam R) (cs : crystal_setup R) : bool := in_unit (snell_arg b cs).
+
+  (* IdlerBeam::try_new_optimum: val = ns sin(theta_s) / sqrt(arg) needs arg > 0, asin(val) needs |val| <= 1 *)
+  Definition idler_defined (s p : beam R) (cs : crystal_setup R) (pp : MI.poling) : bool :=
+    Rltb 0 (MI.opt_arg (index_of cs) (ib s) (ipump p) pp) && in_unit (MI.opt_val (index_of cs) (ib s) (ipump p) pp).
+
+  (* CrystalSetup::optimal_waist_position = -0.5 L / n_z needs n_z <> 0 *)
+  Definition waist_defined (cs : crystal_setup R) (l : R) (pol : polarization) : bool :=
+    if Req_EM_T (index_of cs l ez (ipol pol)) 0 then false else true.
+
   (* delta_kz closure of optimum_poling_period / compute_sign *)
   Definition dkz_c (s p : beam R) (cs : crystal_setup R) (pp : MI.poling) : R :=
     MA.dkz_of (index_of cs) (ipm (cs_pm cs)) (cs_counter cs) (ib s) (ipump p) pp.
@@ -49,23 +68,53 @@ Section Composed.
      optimum idler without poling; |delta k z| *)
   Definition theta_cost_c (cs0 : crystal_setup R) (e : R) (s p : beam R) (theta : R) : R :=
     let cs := set_crystal_theta cs0 theta in
-    match snell_inv s (Rabs e) cs with
+    match snell_inv s e cs with
     | Some ti => Rabs (dkz_c (set_angles R_ops s (b_phi s) ti) p cs MI.PPOff)
     | None => 0
     end.
+  (* ... is defined at a candidate angle: out of bounds (the cost is +inf without evaluating the closure), or the Snell
+     inverse answers and the unpoled optimum idler is defined *)
+  Definition theta_cost_defined (cs0 : crystal_setup R) (e : R) (s p : beam R) (theta : R) : bool :=
+    GA.nm_out_of_bounds theta GA.oth_min GA.oth_max ||
+    (let cs := set_crystal_theta cs0 theta in
+     match snell_inv s e cs with
+     | Some ti => idler_defined (set_angles R_ops s (b_phi s) ti) p cs MI.PPOff
+     | None => false
+     end).
+  (* every candidate the angle search evaluates (Model/NM1d.v records them) has a defined cost: otherwise the cost is NaN and
+     the implementation's search fails *)
+  Definition theta_search_defined (cs0 : crystal_setup R) (e : R) (s p : beam R) : bool :=
+    forallb (theta_cost_defined cs0 e s p)
+      (NM.strace (NM.nm_run MA.Rltb MA.real_ops (MA.th_cost (theta_cost_c cs0 e s p)) sd_theta
+                    (GA.oth_seed0 GA.oth_guess) (GA.oth_seed1 GA.oth_guess) GA.oth_max_iter)).
+
+  (* likewise the cost closure `pm` of optimum_poling_period at a candidate period *)
+  Definition period_cost_defined (s p : beam R) (cs : crystal_setup R) (x : R) : bool :=
+    GA.nm_out_of_bounds x GA.opp_min_period (GA.opp_max_period (cs_length cs)) ||
+    idler_defined s p cs (MI.PPOn (x * 1) (GI.sign_from (dkz_c s p cs MI.PPOff))).
+  Definition period_search_defined (s p : beam R) (cs : crystal_setup R) : bool :=
+    idler_defined s p cs MI.PPOff &&
+    forallb (period_cost_defined s p cs)
+      (NM.strace (NM.nm_run MA.Rltb MA.real_ops (MA.pol_cost (dkz_c s p cs) (cs_length cs)) sd_period
+                    (GA.opp_seed0 (GA.opp_guess (MA.z0 (dkz_c s p cs)))) (GA.opp_seed1 (GA.opp_guess (MA.z0 (dkz_c s p cs))))
+                    GA.opp_max_iter)).
 
   Definition oracles_of_model : oracles R := {|
     o_snell_inv := snell_inv;
     (* Beam::calc_external_theta_from_internal: asin (n sin theta), n along the beam's own direction *)
-    o_snell_ext := fun b cs =>
-      Some (asin (index_of cs (b_wavelength b) (GI.direction_from_polar (b_phi b) (b_theta b)) (ipol (b_pol b)) * sin (b_theta b)));
-    o_nm_theta := fun cs0 e s p => Some (MA.optimum_theta (theta_cost_c cs0 e s p) MA.real_ops sd_theta);
+    o_snell_ext := fun b cs => if snell_ext_defined b cs then Some (asin (snell_arg b cs)) else None;
+    o_nm_theta := fun cs0 e s p =>
+      if theta_search_defined cs0 e s p then Some (MA.optimum_theta (theta_cost_c cs0 e s p) MA.real_ops sd_theta) else None;
     o_dkz0 := fun s p cs => dkz_c s p cs MI.PPOff;
-    o_nm_period := fun s p cs => Some (MA.nm_period (dkz_c s p cs) MA.real_ops sd_period (cs_length cs));
+    o_nm_period := fun s p cs =>
+      if period_search_defined s p cs then Some (MA.nm_period (dkz_c s p cs) MA.real_ops sd_period (cs_length cs)) else None;
     (* the emission angle of IdlerBeam::try_new_optimum (before Beam::new normalises it) *)
     o_idler_theta := fun s p cs pp =>
-      Some (GI.idler_theta (cs_counter cs) (MI.b_theta (ib s)) (MI.opt_val (index_of cs) (ib s) (ipump p) (ipp pp)));
+      if idler_defined s p cs (ipp pp)
+      then Some (GI.idler_theta (cs_counter cs) (MI.b_theta (ib s)) (MI.opt_val (index_of cs) (ib s) (ipump p) (ipp pp)))
+      else None;
     (* CrystalSetup::optimal_waist_position = -0.5 L / n_z *)
-    o_waist_pos := fun cs l pol => Some (- (1 / 2) * cs_length cs / index_of cs l ez (ipol pol))
+    o_waist_pos := fun cs l pol =>
+      if waist_defined cs l pol then Some (- (1 / 2) * cs_length cs / index_of cs l ez (ipol pol)) else None
   |}.
 End Composed.
